@@ -905,10 +905,17 @@ impl ActTask for Step {
 //@@ end
 //@@ extract file=acts/src/scheduler/process/task/step.rs in="impl ActTask for Step" item="fn review" name=Step::review props=C02,C03,C04,C01
 //@@ opt traitpost
+//@@ proof before=is_completed#2
+                proof {
+                    //# D5-the-successor-is-scheduled-only-by-the-review-that-closes-the-step [C04]
+                    assert(h.st(h.cur) is Running && h.cur == old(h).cur);
+                }
 //@@ loop 1
         invariant
             //# count-bound
             count <= __i1, tasks_ok(*h, __v1@),
+            //# D5-the-step-itself-is-still-running-while-its-children-are-counted [C04]
+            h.cur == old(h).cur && h.st(h.cur) is Running,
             //# H1-counted-children-are-closed
             count == __i1 ==> forall|j: int| 0 <= j < __i1 ==> h.has((#[trigger] __v1@[j]).id@) && closed_or_revived(h.tasks[__v1@[j].id@]),
 //@@ proof before=set_state#2
